@@ -28,6 +28,11 @@ func elemKinds() map[string]func(i int) *D {
 		"bools":   func(i int) *D { return h.Bool(i%2 == 0) },
 		"objects": func(i int) *D { return h.Obj("k", h.FloatD(float64(i)), "name", h.Str(fmt.Sprintf("n%d", i))) },
 		"arrays":  func(i int) *D { return h.SliceAny(h.FloatD(float64(i)), h.Str("x")) },
+		// arrays all of whose elements are zero values are not empty arrays
+		"zero-ints":     func(i int) *D { return h.Int("int", 0) },
+		"empty-strings": func(i int) *D { return h.Str("") },
+		"falses":        func(i int) *D { return h.Bool(false) },
+		"nulls":         func(i int) *D { return h.Nil() },
 	}
 }
 
